@@ -7,7 +7,7 @@
 
 struct blist { struct ec_backend *slh_first; };
 extern struct blist active_instances;
-static int registry_len(void) { int n = 0; for (struct ec_backend *b = active_instances.slh_first; b; b = b->link.sle_next) n++; return n; }
+static int registry_len(void) { int n = 0; for (struct ec_backend *b = active_instances.slh_first; b && n < 4096; b = b->link.sle_next) n++; return n; }   /* bounded: a corrupted (cyclic) list must not hang the harness */
 
 struct gold { uint64_t enc, dec[2], rec[2], need; };
 static struct gold G; static int have_gold;
